@@ -32,7 +32,9 @@ def types_in(M, t, seen=None):
     seen = seen if seen is not None else set()
     yield t
     k = t["k"]
-    if k == "REF":
+    if k in ("REF", "REFC"):
+        if k == "REFC":
+            yield M.resolve(t)
         if t["n"] not in seen:
             seen.add(t["n"])
             yield from types_in(M, M.env[t["n"]], seen)
@@ -234,6 +236,14 @@ def _has_default_in_additions(M, t):
     return t["k"] in ("SEQUENCE", "SET") and any(c["o"] == "D" for c in t["adds"])
 
 
+def _int_ext_additions(M, t):
+    for key in ("c", "size"):
+        c = t.get(key)
+        if isinstance(c, dict) and c.get("op") == "ext" and c["b"]["op"] != "none":
+            return True
+    return False
+
+
 def _set_default_explicit(t, v):
     """a SET value that stores a component equal to its DEFAULT explicitly"""
     if t["k"] != "SET":
@@ -308,6 +318,7 @@ PREDS = {
     "has_retagged_string": any_type(_has_retagged_string),
     "has_explicit_tag": any_type(_has_explicit_tag),
     "has_boolean_default_true": any_type(_has_boolean_default_true),
+    "int_ext_additions": any_type(_int_ext_additions),
     "has_default_in_additions": any_type(_has_default_in_additions),
     "bits_partial_octet": any_leaf(_bits_partial_octet),
     "setof_needs_sorting": any_leaf(_setof_needs_sorting),
